@@ -56,7 +56,7 @@ func init() {
 
 func c02Gen(tier string, seed int64) []fw.Case {
 	rng := fw.NewRand(uint64(seed)*7919 + 2)
-	n := tierPick(tier, 1200, 30000)
+	n := tierPick(tier, 4000, 60000)
 	thresholds := []int{0, 1, 100, 4096, 1 << 20}
 	var cases []fw.Case
 	for i := 0; i < n; i++ {
